@@ -17,10 +17,12 @@ pub fn run(ctx: &Ctx) -> (Report, Meta) {
     .floor("runs_checked", 500)
     .floor("runs_with_rejections", 50)
     .floor("runs_with_jacobian", 100)
-    .floor("low_level_runs_checked", 100);
+    .floor("low_level_runs_checked", 100)
+    .floor("hard_runs_checked", 200);
     let g = GenOpts {
         allow_t_eval: true,
         allow_events: true,
+        allow_terminal: true,
         allow_max_step: true,
         allow_max_steps: true,
         bidirectional_problems: false,
@@ -115,7 +117,8 @@ pub fn run(ctx: &Ctx) -> (Report, Meta) {
         if sol.nstep < sol.naccpt {
             rep.violate(&format!("C18/nstep_ge_naccpt/{}/{}", m, jmode), format!("nstep = {} < naccpt = {}", sol.nstep, sol.naccpt), &case_id, case());
         }
-        let filtered = scn.t_eval.is_some() || scn.first_step.is_some() || scn.events.iter().any(|e| e.terminal.is_some());
+        // a terminal event truncates the last interval but does not remove it
+        let filtered = scn.t_eval.is_some() || scn.first_step.is_some();
         if !filtered {
             rep.count("interval_counts_checked", 1);
             if sol.naccpt + 1 != sol.t.len() {
@@ -129,6 +132,78 @@ pub fn run(ctx: &Ctx) -> (Report, Meta) {
         }
         if i % 997 == 0 {
             rep.sample(case());
+        }
+    });
+
+    // hard runs: stiffness met with explicit methods (ProbablyStiff), Newton failures in the
+    // implicit methods, sudden onset of stiffness, huge first steps, blow-up; the counters must be
+    // right on failing runs too
+    let nhard = ctx.size(600, 12_000);
+    let rep_h = par_for(nhard, "C18", |i, rep| {
+        let case_id = format!("hard/{}", i);
+        if !ctx.want(&case_id) {
+            return;
+        }
+        use crate::problems::{FnProblem, Problem};
+        let mut rng = Rng::derive(ctx.seed, 180, i as u64);
+        let method = METHODS[i % 6];
+        let m = mname(method);
+        let kind = (i / 6) % 6;
+        let lam = rng.logu(1e2, 1e5);
+        let kk = rng.logu(1e3, 1e5);
+        let boxed: Box<dyn Problem> = match kind {
+            0 => Box::new(FnProblem { n: 2, name: format!("stiff_linear lam={}", lam), fun: move |t: f64, y: &[f64], d: &mut [f64]| { d[0] = -lam * (y[0] - t.cos()); d[1] = y[0] - y[1]; } }),
+            1 => Box::new(FnProblem { n: 1, name: format!("onset y'=1-{}*max(y-1/2,0)^2", kk), fun: move |_t: f64, y: &[f64], d: &mut [f64]| { let z = (y[0] - 0.5).max(0.0); d[0] = 1.0 - kk * z * z; } }),
+            2 => Box::new(FnProblem { n: 1, name: format!("cubic y'=-{}(y-cos x)^3 - sin x", kk), fun: move |t: f64, y: &[f64], d: &mut [f64]| { let z = y[0] - t.cos(); d[0] = -kk * z * z * z - t.sin(); } }),
+            3 => Box::new(crate::problems::StiffVdP { mu: rng.logu(10.0, 1000.0) }),
+            4 => Box::new(crate::problems::Robertson),
+            _ => Box::new(FnProblem { n: 1, name: "blowup y'=y^2".into(), fun: |_t: f64, y: &[f64], d: &mut [f64]| { d[0] = y[0] * y[0]; } }),
+        };
+        let prob: &dyn Problem = boxed.as_ref();
+        let y0 = match kind { 0 => vec![0.0, 1.0], 1 => vec![0.0], 2 => vec![rng.range(0.5, 1.5)], 3 => vec![2.0, 0.0], 4 => vec![1.0, 0.0, 0.0], _ => vec![1.0] };
+        let xend = match kind { 0 => 2.0, 1 => 3.0, 2 => 3.0, 3 => 3.0, 4 => 40.0, _ => 2.0 };
+        let mut scn = Scn::new(method, 0.0, xend, y0);
+        let rt = rng.logu(1e-8, 1e-3);
+        scn.rtol = Tol::S(rt);
+        scn.atol = Tol::S(rt * rng.logu(1e-4, 1.0));
+        scn.user_jac = false;
+        if rng.chance(0.4) && method != Method::RK4 { scn.first_step = Some(rng.logu(1e-3, 1.0)); }
+        if method == Method::RK4 { scn.first_step = Some(xend / rng.range(50.0, 400.0)); }
+        scn.max_steps = Some(20_000);
+        scn.budget = 3_000_000;
+        let jmode = if !is_implicit(method) { "explicit" } else { "fd_jac" };
+        let res = run_solve(prob, &scn, false, false);
+        rep.eval();
+        let sol = match &res.out {
+            Outcome::Ok(s) => s,
+            Outcome::Budget => { rep.inconclusive("evaluation_budget_exhausted"); return; }
+            Outcome::Err(_) => { rep.count("config_errors_returned", 1); return; }
+            Outcome::Panic(msg) => { rep.violate(&format!("C18/no_panic/{}/{}", m, jmode), format!("panic: {}", msg), &case_id, scn.describe(prob)); return; }
+        };
+        rep.count("hard_runs_checked", 1);
+        rep.count(&format!("hard_status_{:?}", sol.status), 1);
+        let case = || {
+            let mut c = scn.describe(prob);
+            c["reported"] = json!({"nfev": sol.nfev, "njev": sol.njev, "nstep": sol.nstep, "naccpt": sol.naccpt, "nrejct": sol.nrejct, "len_t": sol.t.len(), "status": format!("{:?}", sol.status)});
+            c["observed"] = json!({"ode_calls_stepper": res.log.n_ode, "ode_calls_in_jacobian_differencing": res.log.n_ode_jac, "jac_calls": res.log.n_jac});
+            c
+        };
+        let cls = format!("{}_hard", jmode);
+        if sol.nrejct > 0 || res.log.n_jac > 0 { rep.nontrivial(scn_hash(&scn, prob) ^ 0x77); }
+        if sol.nfev as u64 != res.log.n_ode {
+            rep.violate(&format!("C18/nfev/{}/{}", m, cls), format!("nfev = {} but the stepper evaluated the right-hand side {} times (status {:?})", sol.nfev, res.log.n_ode, sol.status), &case_id, case());
+        }
+        if sol.njev as u64 != res.log.n_jac {
+            rep.violate(&format!("C18/njev/{}/{}", m, cls), format!("njev = {} but jac was called {} times", sol.njev, res.log.n_jac), &case_id, case());
+        }
+        if sol.nstep < sol.naccpt {
+            rep.violate(&format!("C18/nstep_ge_naccpt/{}/{}", m, cls), format!("nstep = {} < naccpt = {}", sol.nstep, sol.naccpt), &case_id, case());
+        }
+        if scn.first_step.is_none() || method == Method::RK4 {
+            rep.count("interval_counts_checked", 1);
+            if sol.naccpt + 1 != sol.t.len() {
+                rep.violate(&format!("C18/naccpt_vs_intervals/{}/{}_{:?}", m, cls, sol.status), format!("naccpt = {} but {} intervals were reported (status {:?})", sol.naccpt, sol.t.len().saturating_sub(1), sol.status), &case_id, case());
+            }
         }
     });
 
@@ -179,6 +254,7 @@ pub fn run(ctx: &Ctx) -> (Report, Meta) {
         }
     });
     let mut rep = rep;
+    rep.merge(rep_h);
     rep.merge(rep2);
     let _ = Status::Success;
     (rep, meta)
